@@ -152,7 +152,7 @@ class Aff:
 
     def __index__(self):
         if self.t:
-            raise TypeError("symbolic extent used as a concrete integer")
+            raise alg.Undecided("symbolic extent used as a concrete integer (e.g. to slice an ordinary array): outside the generic-element fragment")
         return self.c
 
     def to_sym(self):
